@@ -211,6 +211,13 @@ fn lex_source_into_tokens(source: &[u8], mut tokens: Tokens) -> Tokens
 	}
 }
 
+/// Whether the byte at this position is a line ending or the start of one.
+#[inline(always)]
+fn ends_line(source: &[u8], i: usize, byte: u8) -> bool
+{
+	byte == b'\n' || (byte == b'\r' && source.get(i + 1) == Some(&b'\n'))
+}
+
 #[inline(always)]
 fn lex_source_into_buffer<'source: 'tokens, 'tokens: 'buffer, 'buffer>(
 	source: &'source [u8],
@@ -236,10 +243,12 @@ fn lex_source_into_buffer<'source: 'tokens, 'tokens: 'buffer, 'buffer>(
 			{
 				continue;
 			}
-			b'\r' =>
+			b'\r' => match iter.peek()
 			{
-				continue;
-			}
+				// A carriage return is part of the line ending after it.
+				Some((_, b'\n')) => continue,
+				_ => Err(LexingError::UnexpectedCharacter),
+			},
 			b'\n' =>
 			{
 				line_number += 1;
@@ -682,7 +691,7 @@ fn lex_source_into_buffer<'source: 'tokens, 'tokens: 'buffer, 'buffer>(
 				let mut closed = false;
 				let mut first_error = None;
 
-				while let Some((_, x)) = iter.next_if(|&(_, y)| y != b'\n')
+				while let Some((_, x)) = iter.next_if(|&(i, y)| !ends_line(source, i, y))
 				{
 					location.end += 1;
 					if x == b'\\'
@@ -691,7 +700,7 @@ fn lex_source_into_buffer<'source: 'tokens, 'tokens: 'buffer, 'buffer>(
 						location.end += 1;
 						// A backslash at the end of a line escapes nothing:
 						// the literal ends with the line, as an unclosed one does.
-						match iter.next_if(|&(_, y)| y != b'\n')
+						match iter.next_if(|&(i, y)| !ends_line(source, i, y))
 						{
 							Some((_, b'n')) => push_byte(b'\n'),
 							Some((_, b'r')) => push_byte(b'\r'),
@@ -845,7 +854,7 @@ fn lex_source_into_buffer<'source: 'tokens, 'tokens: 'buffer, 'buffer>(
 				let mut closed = false;
 				let mut first_error = None;
 
-				while let Some((_, x)) = iter.next_if(|&(_, y)| y != b'\n')
+				while let Some((_, x)) = iter.next_if(|&(i, y)| !ends_line(source, i, y))
 				{
 					location.end += 1;
 					if x == b'\\'
@@ -854,7 +863,7 @@ fn lex_source_into_buffer<'source: 'tokens, 'tokens: 'buffer, 'buffer>(
 						location.end += 1;
 						// A backslash at the end of a line escapes nothing:
 						// the literal ends with the line, as an unclosed one does.
-						match iter.next_if(|&(_, y)| y != b'\n')
+						match iter.next_if(|&(i, y)| !ends_line(source, i, y))
 						{
 							Some((_, b'n')) => push_byte(b'\n'),
 							Some((_, b'r')) => push_byte(b'\r'),
